@@ -35,6 +35,7 @@ enum Kind : uint8_t
   K_HARNESS_CS,  // harness yield placed inside an SDK critical section
   K_TASK_BEGIN,
   K_TASK_END,
+  K_CALL,  // entry/exit of a function defined in the repository (compiler-inserted hook)
   K_NKINDS
 };
 
@@ -48,6 +49,7 @@ enum Draw : uint8_t
   D_STALL,
   D_SYSJUMP,
   D_SPAWN_FAIL,
+  D_CALL,  // preempt the running task at a function boundary of repository code
   D_NDRAWS
 };
 
@@ -85,6 +87,10 @@ struct RunConfig
   int max_stalls        = 2;
   double p_sysjump      = 0;
   double p_spawn_fail   = 0;  // only for threads created by non-harness tasks
+  // call-boundary preemption: every call_period-th entry/exit of a repository function is a
+  // candidate; a candidate becomes a schedule point (caller demoted) with probability p_call
+  int call_period = 0;  // 0 = off
+  double p_call   = 0;
   // replay: explicit sparse decision stream; strategies are bypassed
   bool replay = false;
   std::vector<std::pair<uint32_t, uint32_t>> decisions;
@@ -102,6 +108,8 @@ struct RunResult
   bool drained         = false;  // entered drain mode
   uint64_t fired[D_NDRAWS] = {};
   uint64_t timer_jumps = 0;
+  uint64_t calls       = 0;  // function boundaries of repository code crossed by tasks
+  std::vector<uint64_t> call_sites;  // functions (offset in the binary) at whose boundary a task was preempted
   std::vector<std::pair<uint32_t, uint32_t>> decisions;  // sparse, non-zero draws
 };
 
@@ -171,6 +179,9 @@ int64_t steady_now_ns() noexcept;
 int64_t system_now_ns() noexcept;
 int64_t peek_now_ns() noexcept;  // no side effect (for logging / oracles)
 uint64_t entropy() noexcept;
+int call_points_add(int delta) noexcept;  // call-boundary preemption on (+1) / off (-1) for the calling task
+int call_points_set(int v) noexcept;      // returns the previous value
+int fork_task() noexcept;  // real fork() of the running task; the child runs alone, without schedule points
 bool cas_spurious() noexcept;
 
 // probes: "this rare condition was hit" counters, aggregated by the runner
